@@ -13,11 +13,8 @@ const QuotasAvailable = false
 
 type runtimeContextManager struct {
 	messageHandler Callable
-	// Thread that installed the message handler (nil if not known): errors in
-	// other threads (coroutines) are not handled by it.
-	messageHandlerThread *Thread
-	parent               *runtimeContextManager
-	weakRefPool          luagc.Pool
+	parent         *runtimeContextManager
+	weakRefPool    luagc.Pool
 }
 
 var _ RuntimeContext = (*runtimeContextManager)(nil)
@@ -75,7 +72,6 @@ func (m *runtimeContextManager) RuntimeContext() RuntimeContext {
 func (m *runtimeContextManager) PushContext(ctx RuntimeContextDef) {
 	parent := *m
 	m.messageHandler = ctx.MessageHandler
-	m.messageHandlerThread = nil
 	m.parent = &parent
 }
 
